@@ -37,6 +37,9 @@ def queries(ctx):
                     defines=("DS_%s=1" % name, "V_NCH=6", "VL_MEMCPY_LOOP=1"), unwind=26, unwindset=("v_put_udec.0:2", "v_put_udec.1:2", "v_put_udec.2:2", "strncpy.0:260", "strlen.0:260", "v_format.3:44"),
                     flags=("--object-bits", "10", "--memory-leak-check"), timeout=600, mem_gb=4,
                     bounds="data source %s: all identity/environment answers symbolic and independent, every lookup may fail" % name))
+    # rpname / cgroup: a DS_rpname harness exists in C12_datasources.c, but every formulation tried (symbolic and concrete name
+    # lengths, no faults, NAME_MAX scaled, recursion bounded by a global unwind of 4) exhausted 8 GB: getline-allocated line
+    # buffers + recursion over /proc/<pid>/status readers are outside what CBMC reaches here.  Not claimed (DESIGN section 3, C12).
     q = [x for x in qs if x.name == "ds_env_all"][0]
     import dataclasses
     qs.append(dataclasses.replace(q, name="ds_env_all_cleared", defines=tuple(q.defines) + ("ENV_NULL=1",), bounds="data source env_all with environ == NULL (process called clearenv())"))
